@@ -197,6 +197,7 @@ Section Rows.
   Hypothesis negx_invol : forall a, negx (negx a) = a.
 
   Notation row := (option A).
+  Ltac llia := lia.
   Notation neg_row := (neg_row negx).
   Definition sgn (s : bool) (r : row) : row := if s then neg_row r else r.
 
@@ -329,7 +330,7 @@ Section Rows.
   Proof.
     intros Hyp i. rewrite nth_jump_flags.
     destruct (Nat.lt_ge_cases (S i) (length rows)) as [Hi|Hi].
-    - rewrite !remove_jumps_spec by lia. rewrite flipped_succ, nth_jump_flags.
+    - rewrite !remove_jumps_spec by llia. rewrite flipped_succ, nth_jump_flags.
       destruct (nth i rows None) as [a|] eqn:Ea; [|destruct (flipped rows i); reflexivity].
       destruct (nth (S i) rows None) as [b|] eqn:Eb.
       2:{ simpl. destruct (flipped rows i); simpl; reflexivity. }
@@ -339,19 +340,19 @@ Section Rows.
           rewrite negx_invol in Hyp. rewrite <- jump_neg_both, negx_invol. exact Hyp.
         * exact Hyp.
       + destruct (flipped rows i); simpl; [rewrite jump_neg_both|]; exact J.
-    - rewrite (nth_overflow _ None) with (n := S i) by (rewrite remove_jumps_length; lia).
+    - assert (E : nth (S i) (remove_jumps negx jump rows) None = None) by (apply nth_overflow; rewrite remove_jumps_length; llia). rewrite E.
       destruct (nth i _ None); reflexivity.
   Qed.
 
   (* ======================================================================================
      E. slerp_nan
      ====================================================================================== *)
-  Lemma upd_length arr : forall s vals, length (upd arr s vals) = length arr.
+  Lemma upd_length (arr : list row) : forall s vals, length (upd arr s vals) = length arr.
   Proof.
     induction arr as [|x r IH]; intros s vals; simpl; [reflexivity|].
     destruct s; [destruct vals|]; simpl; rewrite ?IH; reflexivity.
   Qed.
-  Lemma nth_upd arr : forall s vals i,
+  Lemma nth_upd (arr : list row) : forall s vals i,
     nth i (upd arr s vals) None =
     if (s <=? i) && (i <? s + length vals) && (i <? length arr) then nth (i - s) vals None else nth i arr None.
   Proof.
@@ -364,12 +365,13 @@ Section Rows.
           rewrite Nat.sub_0_r. reflexivity.
       + simpl upd. destruct i; [reflexivity|]. simpl nth at 1. rewrite IH. simpl. reflexivity.
   Qed.
-  Lemma nth_interpolants a b L k : k < L -> nth k (interpolants interp a b L) None = Some (interp a b (S k) (S L)).
+  Lemma nth_map_seq (B : Type) (f : nat -> B) d : forall L s k, k < L -> nth k (map f (seq s L)) d = f (s + k).
   Proof.
-    intros H. unfold interpolants. rewrite nth_indep with (d' := (fun k => Some (interp a b k (S L))) 0)
-      by (rewrite map_length, seq_length; exact H).
-    rewrite map_nth, seq_nth by exact H. reflexivity.
+    induction L as [|L IH]; intros s k H; [lia|]. simpl. destruct k; [rewrite Nat.add_0_r; reflexivity|].
+    rewrite IH by lia. f_equal. lia.
   Qed.
+  Lemma nth_interpolants a b L k : k < L -> nth k (interpolants interp a b L) None = Some (interp a b (S k) (S L)).
+  Proof. intros H. unfold interpolants. rewrite nth_map_seq by exact H. reflexivity. Qed.
   Lemma interpolants_length a b L : length (interpolants interp a b L) = L.
   Proof. unfold interpolants. rewrite map_length, seq_length. reflexivity. Qed.
 
@@ -388,31 +390,29 @@ Section Rows.
   Proof.
     induction ivs as [|[s e] tl IH]; intros arr out Hlen Hf.
     - simpl in Hf. injection Hf as <-. split; [exact Hlen|]. intros i. left. split; [reflexivity|]. intros iv [].
-    - simpl fold_left in Hf. unfold fill_one at 2 in Hf. simpl fst in Hf. simpl snd in Hf.
+    - simpl fold_left in Hf.
       destruct s as [|s']; [rewrite fold_fill_none in Hf; discriminate|].
       destruct (nth s' src None) as [a|] eqn:Ea; [|rewrite fold_fill_none in Hf; discriminate].
       destruct (nth (S e) src None) as [b|] eqn:Eb; [|rewrite fold_fill_none in Hf; discriminate].
       assert (He : S e < length src).
-      { destruct (Nat.lt_ge_cases (S e) (length src)); [assumption|]. rewrite nth_overflow in Eb by lia. discriminate. }
+      { destruct (Nat.lt_ge_cases (S e) (length src)); [assumption|]. rewrite nth_overflow in Eb by llia. discriminate. }
       apply IH in Hf; [|rewrite upd_length; exact Hlen]. destruct Hf as [Hl Hf]. split; [exact Hl|].
       intros i. destruct (Hf i) as [[H1 H2]|H1].
       + rewrite nth_upd, interpolants_length in H1.
-        destruct (Nat.leb_spec (S s') i); simpl in H1.
-        * destruct (Nat.ltb_spec i (S s' + (e - s'))); simpl in H1.
-          -- destruct (Nat.ltb_spec i (length arr)); [|lia].
-             right. exists s', e, a, b. split; [left; reflexivity|]. split; [lia|]. split; [exact Ea|]. split; [exact Eb|].
-             rewrite H1, nth_interpolants by lia. f_equal. f_equal. lia.
-          -- left. split; [exact H1|]. intros iv [<-|Hin]; [simpl; lia|apply H2; exact Hin].
-        * left. split; [exact H1|]. intros iv [<-|Hin]; [simpl; lia|apply H2; exact Hin].
+        destruct (Nat.leb_spec (S s') i), (Nat.ltb_spec i (S s' + (e - s'))), (Nat.ltb_spec i (length arr));
+          cbn [andb] in H1;
+          try (left; split; [exact H1|]; intros iv [<-|Hin]; [simpl; llia|apply H2; exact Hin]).
+        right. exists s', e, a, b. split; [left; reflexivity|]. split; [llia|]. split; [exact Ea|]. split; [exact Eb|].
+        rewrite H1, nth_interpolants by llia. f_equal. f_equal. llia.
       + right. destruct H1 as (s1 & e1 & a1 & b1 & Hin & R). exists s1, e1, a1, b1. split; [right; exact Hin|exact R].
   Qed.
   Lemma fold_fill_defined src ivs : forall arr,
     (forall s e, In (s, e) ivs -> exists s' a b, s = S s' /\ nth s' src None = Some a /\ nth (S e) src None = Some b) ->
     exists out, fold_left (fill_one interp src) ivs (Some arr) = Some out.
   Proof.
-    induction ivs as [|[s e] tl IH]; intros arr H; simpl; [eexists; reflexivity|].
+    induction ivs as [|[s e] tl IH]; intros arr H; [simpl; eexists; reflexivity|].
     destruct (H s e (or_introl eq_refl)) as (s' & a & b & -> & Ea & Eb).
-    unfold fill_one at 2. simpl fst. simpl snd. rewrite Ea, Eb. apply IH.
+    simpl. rewrite Ea, Eb. apply IH.
     intros s1 e1 Hin. apply H. right. exact Hin.
   Qed.
 
@@ -421,7 +421,7 @@ Section Rows.
     unfold nan_mask. destruct (Nat.lt_ge_cases i (length src)) as [H|H].
     - rewrite nth_indep with (d' := isnan (None : row)) by (rewrite map_length; exact H). rewrite map_nth.
       destruct (nth i src None); simpl; split; try tauto; try discriminate. intros [? _]; discriminate.
-    - rewrite nth_overflow by (rewrite map_length; lia). split; [discriminate|lia].
+    - rewrite nth_overflow by (rewrite map_length; llia). split; [discriminate|lia].
   Qed.
   Lemma nth_nan_mask_valid (src : list row) i v : nth i src None = Some v -> nth i (nan_mask src) false = false.
   Proof.
@@ -438,14 +438,14 @@ Section Rows.
     unfold fill_nan. intros Hf. apply fold_fill in Hf; [|reflexivity]. destruct Hf as [Hl Hf]. split; [exact Hl|]. split.
     - intros i v Hv. destruct (Hf i) as [[H1 _]|(s' & e & a & b & Hin & Hi & _)]; [rewrite H1; exact Hv|]. exfalso.
       apply nan_intervals_are_maximal_runs in Hin. destruct Hin as (_ & H2 & _).
-      rewrite (nth_nan_mask_valid _ _ _ Hv) in H2 by exact Hi. discriminate H2. exact Hi.
+      specialize (H2 i Hi). rewrite (nth_nan_mask_valid _ _ _ Hv) in H2. discriminate H2.
     - intros s' e a b Hrun Ea Eb k Hk.
-      assert (Hi : S s' <= s' + k <= e) by lia.
+      assert (Hi : S s' <= s' + k <= e) by llia.
       destruct (Hf (s' + k)) as [[_ H2]|(s1 & e1 & a1 & b1 & Hin & Hi1 & Ea1 & Eb1 & ->)].
       + exfalso. apply (H2 (S s', e)); [apply nan_intervals_are_maximal_runs; exact Hrun|simpl; lia].
       + apply nan_intervals_are_maximal_runs in Hin.
         destruct (maxrun_unique _ _ _ _ _ _ Hin Hrun Hi1 Hi) as [E1 E2]. injection E1 as ->. subst e1.
-        rewrite Ea in Ea1. rewrite Eb in Eb1. injection Ea1 as <-. injection Eb1 as <-. f_equal. f_equal. lia.
+        rewrite Ea in Ea1. rewrite Eb in Eb1. injection Ea1 as <-. injection Eb1 as <-. f_equal. f_equal. llia.
   Qed.
 
   (* defined for every array whose first and last rows are valid: every position and length of interior runs *)
@@ -455,8 +455,8 @@ Section Rows.
     intros H0 H1. unfold fill_nan. apply fold_fill_defined. intros s e Hin.
     apply nan_intervals_are_maximal_runs in Hin. destruct Hin as (G1 & G2 & G3 & G4).
     destruct s as [|s'].
-    - specialize (G2 0 ltac:(lia)). rewrite (nth_nan_mask_valid _ _ _ H0) in G2. discriminate.
-    - assert (He : nth e (nan_mask src) false = true) by (apply G2; lia). apply nth_nan_mask in He. destruct He as [He Hlt].
+    - specialize (G2 0 ltac:(llia)). rewrite (nth_nan_mask_valid _ _ _ H0) in G2. discriminate.
+    - assert (He : nth e (nan_mask src) false = true) by (apply G2; llia). apply nth_nan_mask in He. destruct He as [He Hlt].
       assert (S e < length src).
       { destruct (Nat.eq_dec e (pred (length src))) as [->|]; [rewrite H1 in He; discriminate|lia]. }
       specialize (G3 s' eq_refl).
@@ -464,7 +464,7 @@ Section Rows.
       2:{ exfalso. assert (nth s' (nan_mask src) false = true) by (apply nth_nan_mask; split; [exact Ea|lia]). congruence. }
       destruct (nth (S e) src None) as [b|] eqn:Eb.
       2:{ exfalso. assert (nth (S e) (nan_mask src) false = true) by (apply nth_nan_mask; split; [exact Eb|lia]). congruence. }
-      exists s', a, b. repeat split.
+      exists s', a, b. repeat split; assumption || reflexivity.
   Qed.
 
   (* slerp_nan = fill after jump removal *)
@@ -482,8 +482,8 @@ Section Rows.
       destruct (flipped rows i); simpl in *; apply Hv; exact E.
     - intros s' e a b Hrun Ea Eb k Hk.
       assert (Hlt : S e < length rows).
-      { destruct (Nat.lt_ge_cases (S e) (length rows)); [assumption|]. rewrite nth_overflow in Eb by lia. discriminate. }
-      pose proof (remove_jumps_spec rows s' ltac:(lia)) as E1. rewrite Ea in E1.
+      { destruct (Nat.lt_ge_cases (S e) (length rows)); [assumption|]. rewrite nth_overflow in Eb by llia. discriminate. }
+      pose proof (remove_jumps_spec rows s' ltac:(llia)) as E1. rewrite Ea in E1.
       pose proof (remove_jumps_spec rows (S e) Hlt) as E2. rewrite Eb in E2.
       assert (Hmask : nan_mask (remove_jumps negx jump rows) = nan_mask rows).
       { apply nth_ext with (d := false) (d' := false); [unfold nan_mask; rewrite !map_length; apply remove_jumps_length|].
